@@ -34,6 +34,32 @@
 /* Assembly function, see src/arc/cmi_coroutine_context_*.asm */
 extern void cmi_coroutine_trampoline(void);
 
+#if defined(CIMBA_VERIF)
+  #if defined(__SANITIZE_ADDRESS__)
+    #define CMI_VERIF_ASAN 1
+  #elif defined(__has_feature)
+    #if __has_feature(address_sanitizer)
+      #define CMI_VERIF_ASAN 1
+    #endif
+  #endif
+#endif
+#if defined(CMI_VERIF_ASAN)
+/*
+ * Verification hook: a new coroutine starts in the assembly trampoline, so the
+ * AddressSanitizer fiber switch is completed by this entry wrapper, and the
+ * stack area is unpoisoned since a restarted coroutine abandons its old frames.
+ */
+extern void __sanitizer_finish_switch_fiber(void *fake_stack_save,
+                                            const void **bottom_old,
+                                            size_t *size_old);
+extern void __asan_unpoison_memory_region(void const volatile *addr, size_t size);
+static void *cmi_verif_entry(struct cmi_coroutine *cp, void *context)
+{
+    __sanitizer_finish_switch_fiber(NULL, NULL, NULL);
+    return (*(cp->cr_function))(cp, context);
+}
+#endif
+
 /*
  * Linux-specific code to get the top and bottom of the current (main) stack
  */
@@ -137,6 +163,9 @@ void cmi_coroutine_context_init(struct cmi_coroutine *cp)
     cmb_assert_debug(cp->stack_base != NULL);
 
     /* Make sure we can recognize if something overwrites the end of stack */
+#if defined(CMI_VERIF_ASAN)
+    __asan_unpoison_memory_region(cp->stack, (size_t)(cp->stack_base - cp->stack));
+#endif
     cp->stack_limit = cp->stack;
     while (((uintptr_t)cp->stack_limit % 16u) != 0u) {
         /* Counting up */
@@ -180,6 +209,9 @@ void cmi_coroutine_context_init(struct cmi_coroutine *cp)
     /* Place address of coroutine function in R12 */
     stkptr -= 8u;
     *(uint64_t *)stkptr = (uintptr_t)(cp->cr_function);
+#if defined(CMI_VERIF_ASAN)
+    *(uint64_t *)stkptr = (uintptr_t)cmi_verif_entry;
+#endif
 
     /* Place address of coroutine struct in R13 */
     stkptr -= 8u;
